@@ -297,12 +297,18 @@ def lacks_attribute(o, initial, g):
 
 def predicted_wrong_answers(g, ops_spec):
     """Answers each mechanism would produce, computed sequentially by putting the
-    shared object into the mechanism's transient state by hand."""
+    shared object into the mechanism's transient state by hand.  The open finding M1 is known
+    for one kind of call site -- a functools.wraps-decorated *function* that a thread retrieves
+    with sigtools.signature while others look at it: only such shared objects are put into
+    the transient state.  (An object of another kind that goes transient -- e.g. a descriptor
+    shared through a class -- is not the known finding.)"""
+    import types
     from sigtools import specifiers, _autoforwards
     pred = {M1: set(), M2: set()}
+    m1_targets = [o for o in g['shared'] if isinstance(o, types.FunctionType) and '__wrapped__' in getattr(o, '__dict__', {})]
     for how, expr in ops_spec:
         op = make_op(g, how, expr)
-        targets = [o for o in g['shared'] if isinstance(getattr(o, '__dict__', None), dict)]
+        targets = m1_targets
         # M1 (a): the attribute is absent while the operation runs
         for o in targets:
             for attrs in (('__wrapped__',), ('__signature__',), ('__wrapped__', '__signature__')):
@@ -674,6 +680,8 @@ def stress(ctx, name, seconds, nthreads=8):
         outcome(op)
     initial = shared_snapshot(g)
     answers = [render(outcome(op)) for op in ops]
+    import types
+    m1_site = any(isinstance(o, types.FunctionType) and '__wrapped__' in getattr(o, '__dict__', {}) for o in g['shared'])
     log = WindowLog()
     log.install()
     old = sys.getswitchinterval()
@@ -710,6 +718,8 @@ def stress(ctx, name, seconds, nthreads=8):
     w = {'scenario': name, 'threads': nthreads, 'operations': total}
     for k, got, tid, start, end in deviations[:200]:
         kinds = log.foreign_overlap(tid, start, end)
+        if not m1_site:
+            kinds = kinds - {'M1'}      # the open finding is known for functools.wraps-decorated functions only
         mech = M2 if 'M2' in kinds and 'raise' not in got and 'M1' not in kinds else (M1 if 'M1' in kinds else (M2 if 'M2' in kinds else None))
         if mech:
             ctx.violation('C17', 'ConcurrencyBoundary', mech,
